@@ -81,7 +81,8 @@ def _summary(tk: Tokens, exp: Expect, rng: random.Random, feature, twin, claimed
     vals = {}
     for k in ("title", "subject", "author", "keywords", "description"):
         t = exp.ignore(tk.new("t"))
-        vals[k] = t + (" café €" if feature == "cp1252-summary" else rng.choice(payloads))
+        # (some ordinary cp1252 strings are, byte for byte, also well-formed UTF-8: É® = C9 AE, É™ = C9 99, Ã© = C3 A9)
+        vals[k] = t + (rng.choice([" café €", " café €", " NESCAFÉ® 2024", " CAFÉ™", " SÃ©rie Ã"]) if feature == "cp1252-summary" else rng.choice(payloads))
     exp.meta = {k: vals[k] for k in claimed}
     cp = 1252 if (feature == "cp1252-summary" and not twin) else 65001
     meta = {"title": vals["title"], "subject": vals["subject"], "author": vals["author"], "keywords": vals["keywords"],
